@@ -12,7 +12,15 @@
 
    Staging (DESIGN C16): Init only picks the nested-tuple shape (Init is
    evaluated by one thread), the Build step turns it into the node heap (in
-   parallel across workers), the operation is a third step.
+   parallel across workers), the operation is a third step.  (Measured: the
+   result of Apply must be assigned directly, res' = Apply(..); binding it
+   with LET inside the action made TLC re-evaluate it, 6x slower.)
+
+   Mode = "corrupt" is a self-test of the oracle, not of the algorithm: the
+   third step overwrites one field of one linked node (or the root pointer)
+   with every other value; every such heap must be reported by PART 2 of IvAvl
+   (no single-field corruption goes unnoticed, the predicates terminate on
+   cyclic and shared structures) and PART 3 must give the identical verdict.
 
    Generation: the Emit "invariant" prints one GEN line per (pre, op, post)
    triple (all of them for SampleMod = 1, else a seed-determined 1/SampleMod
@@ -20,7 +28,8 @@
 EXTENDS IvAvl, TLC, Json, IOUtils
 
 CONSTANTS H,           \* maximal height of the pre-tree
-          SampleMod    \* print every triple whose hash is 0 modulo this
+          SampleMod,   \* print every triple whose hash is 0 modulo this
+          Mode         \* "ops": the API calls;  "corrupt": oracle self-test
 (* which 1/SampleMod sample: from the environment (VERIF seed) *)
 SampleSeed == IF "AVL_SEED" \in DOMAIN IOEnv THEN atoi(IOEnv.AVL_SEED) ELSE 0
 
@@ -28,8 +37,11 @@ VARIABLES phase,       \* "shape" -> "built" -> "done"
           shape,       \* nested tuples: <<>> = empty, <<l, r>> = node
           n,           \* number of nodes of the pre-tree
           tree,        \* the pre-tree as a heap ("built" and "done")
-          op, ret, post
-vars == <<phase, shape, n, tree, op, ret, post>>
+          op,          \* the call made
+          res          \* its result [ret, t] ("done")
+vars == <<phase, shape, n, tree, op, res>>
+ret == res.ret
+post == res.t
 
 RECURSIVE Pow2(_)
 Pow2(k) == IF k = 0 THEN 1 ELSE 2 * Pow2(k - 1)
@@ -80,24 +92,36 @@ Ops(k) == {[kind |-> "ins", n |-> k + 1, key |-> 2 * g + 1] : g \in 0..k}
           \cup {[kind |-> "ins", n |-> k + 1, key |-> 2 * d] : d \in 1..k}
           \cup {[kind |-> "del", n |-> d, key |-> 0] : d \in 1..k}
 
+(* single-field corruptions of a heap t whose linked nodes are 1..k *)
+Corruptions(t, k) ==
+  {[t EXCEPT !.root = v] : v \in (0..MaxN) \ {t.root}}
+  \cup UNION {{[t EXCEPT !.left[i] = v]   : v \in (0..MaxN) \ {t.left[i]}}   : i \in 1..k}
+  \cup UNION {{[t EXCEPT !.right[i] = v]  : v \in (0..MaxN) \ {t.right[i]}}  : i \in 1..k}
+  \cup UNION {{[t EXCEPT !.parent[i] = v] : v \in (0..MaxN) \ {t.parent[i]}} : i \in 1..k}
+  \cup UNION {{[t EXCEPT !.height[i] = v] : v \in (0..(H + 2)) \ {t.height[i]}} : i \in 1..k}
+  \cup UNION {{[t EXCEPT !.key[i] = v] : v \in {2 * i - 2, 2 * i + 2} \cap (2..(2 * k))} : i \in 1..k}
+
 Init == /\ phase = "shape" /\ shape \in AllShapes
-        /\ n = 0 /\ tree = Blank /\ op = NoOp /\ ret = 0 /\ post = Blank
+        /\ n = 0 /\ tree = Blank /\ op = NoOp /\ res = [ret |-> 0, t |-> Blank]
 
 Build == /\ phase = "shape"
          /\ phase' = "built"
          /\ tree' = HeapOf(shape)
          /\ n' = Size(shape)
          /\ shape' = <<>>
-         /\ UNCHANGED <<op, ret, post>>
+         /\ UNCHANGED <<op, res>>
 
-Step == /\ phase = "built"
-        /\ \E o \in Ops(n) :
-             LET r == Apply(tree, o)
-             IN /\ op' = o /\ ret' = r.ret /\ post' = r.t
+Step == /\ phase = "built" /\ Mode = "ops"
+        /\ \E o \in Ops(n) : op' = o /\ res' = Apply(tree, o)
         /\ phase' = "done"
         /\ UNCHANGED <<shape, n, tree>>
 
-Next_ == Build \/ Step
+Corrupt == /\ phase = "built" /\ Mode = "corrupt"
+           /\ \E c \in Corruptions(tree, n) : res' = [ret |-> 0, t |-> c]
+           /\ phase' = "corrupted"
+           /\ UNCHANGED <<shape, n, tree, op>>
+
+Next_ == Build \/ Step \/ Corrupt
 Spec == Init /\ [][Next_]_vars
 
 (* ---- the property on every result *)
@@ -134,8 +158,17 @@ InvTraversal == Done /\ WellLinked(post) =>
 (* duplicate insert: -1 and nothing at all changes; fresh key: 0 *)
 InvDup       == Done /\ op.kind = "ins" =>
                   IF IsDup(Pre, S0, op) THEN ret = -1 /\ post = Pre ELSE ret = 0
-(* the composed verdict used on the real code says the same *)
+(* the composed verdict used on the real code says the same ... *)
 InvJudge     == Done => Judge(Pre, S0, op, ret, post, Forward(post), Backward(post)) = {}
+(* ... and so does its one-pass form (the only one affordable at H = 5) *)
+InvFastJudge == Done => FastJudge(Pre, S0, op, ret, post, Forward(post), Backward(post)) = {}
+InvFastSame  == Done => /\ FastStructViols(post, S1) = StructViols(post, S1)
+                        /\ FastStructViols(post, S0) = StructViols(post, S0)
+
+(* ---- Mode = "corrupt": the oracle notices, terminates, and both forms agree *)
+InvOracle == phase = "corrupted" =>
+               /\ StructViols(post, S0) # {}
+               /\ FastStructViols(post, S0) = StructViols(post, S0)
 
 (* ---- generation *)
 RECURSIVE HashSeq(_, _, _)
